@@ -398,7 +398,7 @@ impl Prop for C11 {
         }
     }
     fn required_probes(&self, _tier: Tier) -> Vec<&'static str> {
-        vec!["xor_layout", "sparse_over_4gib", "block_over_32k", "key_len_not_8", "chunk_below_period", "zero_key", "key_len_over_256", "key_zero_in_first_8_bytes_only", "xor_dat_is_a_symlink", "over_512_files_open_at_once"]
+        vec!["xor_layout", "sparse_over_4gib", "block_over_32k", "key_len_not_8", "chunk_below_period", "zero_key", "key_len_over_256", "key_zero_in_first_8_bytes_only", "xor_dat_is_a_symlink", "over_512_files_open_at_once", "key_ending_in_line_break", "key_partially_repeating"]
     }
     fn explore(&self, item: u64, rng: &mut Rng, tier: Tier, h: &mut Harness) -> Result<(), String> {
         if item % 50 == 7 {
@@ -476,6 +476,24 @@ impl Prop for C11 {
             }
             _ => rng.bytes(kl),
         };
+        // keys with inner structure: a unit repeated and cut off (abcabcab, ababa), and keys that end in a
+        // line break (0a, 0d 0a) — eight bytes plus one or two, as a text tool might leave them
+        if kl >= 3 && rng.chance(1, 10) {
+            let u = rng.usize(2, (kl - 1).min(5));
+            let unit = rng.bytes(u);
+            if unit.iter().any(|b| *b != unit[0]) {
+                key = (0..kl).map(|i| unit[i % u]).collect();
+            }
+        }
+        if rng.chance(1, 10) {
+            key = rng.bytes(8);
+            if rng.coin() {
+                key.push(0x0a);
+            } else {
+                key.extend_from_slice(&[0x0d, 0x0a]);
+            }
+        }
+        let kl = key.len();
         if kl > 8 && rng.chance(1, 8) {
             // first eight bytes (Bitcoin Core's width) zero, the rest not
             key[..8].iter_mut().for_each(|b| *b = 0);
@@ -528,6 +546,16 @@ impl Prop for C11 {
             }
             if k.0.iter().all(|b| *b == 0) {
                 st.probe("zero_key");
+            }
+            if (k.0.len() == 9 && k.0[8] == 0x0a) || (k.0.len() == 10 && k.0[8..] == [0x0d, 0x0a]) {
+                st.probe("key_ending_in_line_break");
+            }
+            {
+                let kk = &k.0;
+                let partial = (2..kk.len()).any(|p| kk.len() % p != 0 && (0..kk.len()).all(|i| kk[i] == kk[i % p]) && kk.iter().any(|b| *b != kk[0]));
+                if partial {
+                    st.probe("key_partially_repeating");
+                }
             }
             if k.0.len() > 8 && k.0[..8].iter().all(|b| *b == 0) && k.0.iter().any(|b| *b != 0) {
                 st.probe("key_zero_in_first_8_bytes_only");
